@@ -554,8 +554,16 @@ func (i *Interface) Delete(key string) error {
 	}
 
 	i.options.Apply(r)
+	// The record may be the live object held by the storage or by a value
+	// provider of an injected database: if the delete fails (eg. because the
+	// storage cannot delete), it must not stay marked as deleted.
+	previous := r.Meta().Deleted
 	r.Meta().Delete()
-	return db.Put(r)
+	err = db.Put(r)
+	if err != nil {
+		r.Meta().Deleted = previous
+	}
+	return err
 }
 
 // Query executes the given query on the database.
